@@ -44,8 +44,21 @@ def main():
     sh("git -C %s checkout -q -- . && git -C %s clean -fdq && git -C %s checkout -q --detach $(git -C /repo rev-parse HEAD)" % (WT, WT, WT))
     rc, out = sh("git apply %s" % patch, cwd=WT)
     if rc != 0:
-        print("PATCH DOES NOT APPLY:", out)
-        return 2
+        # /repo has moved on (fix: commits): try a 3-way application and keep the rebased patch
+        rc, out = sh("git apply -3 %s" % patch, cwd=WT)
+        if rc != 0 or "with conflicts" in out or "U " in sh("git status --short", cwd=WT)[1]:
+            print("PATCH DOES NOT APPLY (even 3-way):", out[-600:])
+            return 2
+        sh("git reset -q", cwd=WT)
+        rebased = "/tmp/seed/%s/_seed/%s.rebased.diff" % (pid, letter)
+        open(rebased, "w").write(sh("git diff", cwd=WT)[1])
+        sh("git checkout -q -- .", cwd=WT)
+        patch = rebased
+        rc, out = sh("git apply %s" % patch, cwd=WT)
+        if rc != 0:
+            print("REBASED PATCH DOES NOT APPLY:", out)
+            return 2
+        meta["patch_rebased_onto"] = sh("git -C /repo rev-parse --short HEAD")[1].strip()
     meta["files_touched"] = sh("git diff --stat | cat", cwd=WT)[1].strip().splitlines()
     ok, out = pinned_tests(WT)
     meta["pinned_tests_pass_with_change"] = ok
